@@ -91,6 +91,8 @@ pub struct Snapshot {
     pub my_turn: bool,
     pub pattern_position: usize,
     pub pattern_len: usize,
+    /// the PSK table (which slots hold a key, and which)
+    pub psks: [Option<[u8; PSKLEN]>; 10],
 }
 
 fn toggle<T>(inner: T, on: bool) -> Toggle<T> {
@@ -202,6 +204,7 @@ pub fn snapshot(hs: &HandshakeState) -> Snapshot {
         my_turn: hs.my_turn,
         pattern_position: hs.pattern_position,
         pattern_len: hs.message_patterns.len(),
+        psks: hs.psks,
     }
 }
 
